@@ -160,6 +160,7 @@ conv_elem!(i8, u16, i16, u32, i32, u64, i64, i128, bool, (), char, f64, String, 
 impl<T: Conv> ConvElem for Option<T> {}
 impl<T: ConvElem> ConvElem for Vec<T> {}
 impl<A: Conv, B: Conv> ConvElem for (A, B) {}
+impl<A: Conv> ConvElem for (A,) {}
 impl<T: Conv> ConvElem for Box<T> {}
 
 impl<T: ConvElem> Conv for Vec<T> {
@@ -206,6 +207,22 @@ impl<A: Conv, B: Conv> Conv for Result<A, B> {
             Ok(x) => Val::Ok(Box::new(x.to_val())),
             Err(x) => Val::Err(Box::new(x.to_val())),
         }
+    }
+}
+impl<A: Conv> Conv for (A,) {
+    fn from_val(v: &Val) -> Self {
+        (A::from_val(&v.as_seq()[0]),)
+    }
+    fn to_val(&self) -> Val {
+        Val::Tuple(vec![self.0.to_val()])
+    }
+}
+impl<T> Conv for std::marker::PhantomData<T> {
+    fn from_val(_: &Val) -> Self {
+        std::marker::PhantomData
+    }
+    fn to_val(&self) -> Val {
+        Val::Unit
     }
 }
 impl<A: Conv, B: Conv> Conv for (A, B) {
